@@ -248,6 +248,9 @@ def publish(w):
 
     def roundtrip_all(tag):
         for m in c.got:
+            for ch in (getattr(m, "children", None) or ()):
+                if ch.value is not None and not isinstance(ch.value, (str, int, float)):
+                    probs.append("%s: %s(%s) carries an object as element content: %r" % (tag, m.__class__.__name__, getattr(m, "name", None), ch.value))
             try:
                 back = IndiMessage.from_string(m.to_string())
             except Exception as e:
@@ -293,6 +296,8 @@ def publish(w):
     if not busy or busy[-1].state != "Busy":
         probs.append("state change not published")
     roundtrip_all("updates")
+    r.process_message(M.GetProperties(version="1.7", device="DEV", name="BLOB"), sender=c)
+    roundtrip_all("definition after a BLOB was set")
     r.process_message(M.GetProperties(version="1.7", device="DEV", name="NUMBER"), sender=c)
     for m in c.got:
         if isinstance(m, M.DefVector) and m.state != "Busy":
